@@ -39,6 +39,31 @@ CHECKS["C08"] = dict(
          "accept/reject, values, list lengths and end offset equal the reference for all inputs within the length bounds.",
     design="4/C08", technique="symbolic execution of Sequence/Optional/Ref unpack vs reference interpreter, CrossHair/z3")
 
+CHECKS["C01"] = dict(
+    text="Bounded symbolic model checking, differential: for every catalogue declaration (excluding the three lossy classes the "
+         "property names) x {generic, generated} x every input length up to the bound x symbolic start offset, z3 decides that "
+         "pack(unpack(raw, off)) equals raw at every consumed position, holds '.' at skipped positions, is no longer than the "
+         "traversed region, and that overlapping reads make pack() raise PacketError (and only those). Known finding F9 (start-of-data "
+         "positioning with non-zero start offset) is reported as KNOWN-FINDING.",
+    design="4/C01", technique="symbolic execution of unpack+pack vs reference consumed-interval oracle, CrossHair/z3")
+CHECKS["C03"] = dict(
+    text="Bounded symbolic model checking, 16-way differential: each generator-relevant declaration is compiled under all 15 "
+         "non-reference combinations of generate_for_pack/generate_for_unpack/vectorize/annotate and compared with configuration "
+         "0000 (generic loop): unpack over symbolic raw/offset (same accept/reject, end, values), pack over symbolic field values "
+         "(ints unbounded): same bytes or PacketError on both.",
+    design="4/C03", technique="symbolic execution of generated __pkts__ code vs generic loop on the same symbolic inputs, CrossHair/z3")
+CHECKS["C10"] = dict(
+    text="Bounded symbolic model checking: unit level - the real Move.unpack/Move.pack and Sequence element alignment with an "
+         "UNBOUNDED symbolic cursor and packet start for every kind x reference x target form x alignment value (symmetry, documented "
+         "position, minimal advance 0<=adv<A); packet level - declarations with modifiers at nesting depth 1-3: bytes of every field at "
+         "the same relative position in pack() output, skipped bytes '.', output equals the declared layout.",
+    design="4/C10", technique="symbolic execution of Move/Sequence cursor arithmetic (unbounded ints) + packet-level differential, CrossHair/z3")
+CHECKS["C14"] = dict(
+    text="Bounded symbolic model checking, metamorphic: for every catalogue declaration without start-of-data positioning / raw-inspecting "
+         "callbacks: unpack(big, off) == unpack(big[off:], 0) (values, end-off, error stack shifted by off) for symbolic big and off, and "
+         "cutting everything after the traversed region changes nothing (the tail is arbitrary => any appended bytes).",
+    design="4/C14", technique="symbolic execution of three parses of the same symbolic buffer, metamorphic relation decided by z3")
+
 NA_REASON = "check not built yet in this round (planned: DESIGN.md section 4); no claim is made"
 
 
